@@ -71,6 +71,14 @@ def run(call, inst):
         rd = get("dialect", read, lambda: Dialect.get_or_raise(read).__class__() if read else Dialect(), inst)
         wd = get("dialect", write, lambda: Dialect.get_or_raise(write).__class__() if write else Dialect(), inst)
         return sqlglot.transpile(sql, read=rd, write=wd, pretty=call.get("pretty", False))
+    if api == "optimize_joins":
+        from sqlglot.optimizer.optimize_joins import optimize_joins
+
+        return optimize_joins(sqlglot.parse_one(sql, read=read)).sql(dialect=read)
+    if api == "optimize_noschema":
+        from sqlglot.optimizer import optimize
+
+        return optimize(sqlglot.parse_one(sql, read=read), dialect=read).sql(dialect=read)
     schema = get("schema", read, lambda: MappingSchema(SCHEMA, dialect=read), inst)
     if api == "optimize":
         from sqlglot.optimizer import optimize
